@@ -186,12 +186,14 @@ func (ex *Exec) scanMods(fr *frame, l *Loop, st *State) *loopMods {
 					m.get(hn).whole = true
 				case *ssa.Send:
 					el := in.Chan.Type().Underlying().(*types.Chan).Elem()
+					ex.hintChanRegions(el)
 					m.get("chan:" + shortTypeName(el) + ".sent").whole = true
 					m.get("chan:" + shortTypeName(el) + ".nsent").whole = true
 				case *ssa.Select:
 					for _, s := range in.States {
 						if s.Dir == types.SendOnly {
 							el := s.Chan.Type().Underlying().(*types.Chan).Elem()
+							ex.hintChanRegions(el)
 							m.get("chan:" + shortTypeName(el) + ".sent").whole = true
 							m.get("chan:" + shortTypeName(el) + ".nsent").whole = true
 						}
@@ -214,7 +216,7 @@ func (ex *Exec) scanMods(fr *frame, l *Loop, st *State) *loopMods {
 					callee := cc.StaticCallee()
 					if callee == nil {
 						if cc.IsInvoke() {
-							if c := ex.ifaceContract(cc); c != nil {
+							if c, _ := ex.ifaceContractAt(cc, fn); c != nil {
 								pn := c.Params
 								if len(pn) == 0 {
 									pn = []string{"self"}
@@ -395,4 +397,15 @@ func (ex *Exec) sliceRegionName(el types.Type) string {
 		ex.regionSorts[name] = ex.p.ArraySort(IntSort, ex.p.ArraySort(IntSort, ex.tm.SortOf(el)))
 	}
 	return name
+}
+
+func (ex *Exec) hintChanRegions(el types.Type) {
+	p := ex.p
+	base := "chan:" + shortTypeName(el)
+	if _, ok := ex.regionSorts[base+".sent"]; !ok {
+		ex.regionSorts[base+".sent"] = p.ArraySort(IntSort, p.ArraySort(IntSort, ex.tm.SortOf(el)))
+	}
+	if _, ok := ex.regionSorts[base+".nsent"]; !ok {
+		ex.regionSorts[base+".nsent"] = p.ArraySort(IntSort, IntSort)
+	}
 }
